@@ -16,6 +16,9 @@ IntC == [v |-> "Extension", extensions |-> <<"arithmetic.int.types">>, typ |-> O
          value |-> [c |-> "ConstInt", v |-> [log_width |-> 5, value |-> 3]]]                                      \* an extension constant names the extensions it uses
 PoolV == {[name |-> "v", val |-> [v |-> "Sum", tag |-> 1, typ |-> UnitSumT(2), vs |-> <<>>]],
           [name |-> "vi", val |-> IntC],
+          [name |-> "vu", val |-> [v |-> "Sum", tag |-> 0, typ |-> UnitSumT(1), vs |-> <<>>]],                  \* single-variant sums stay sums
+          [name |-> "vs", val |-> [v |-> "Sum", tag |-> 0, typ |-> GenSumT(<<<<BoolT, BoolT>>>>),
+                                  vs |-> <<[v |-> "Sum", tag |-> 1, typ |-> UnitSumT(2), vs |-> <<>>], [v |-> "Sum", tag |-> 0, typ |-> UnitSumT(2), vs |-> <<>>]>>]],
           [name |-> "vt", val |-> [v |-> "Tuple", vs |-> <<IntC, [v |-> "Sum", tag |-> 0, typ |-> UnitSumT(2), vs |-> <<>>]>>]]}
 CONSTANT MaxAdds                 \* bound on the number of definitions added in one behaviour
 Small == Len(hist) <= MaxAdds
